@@ -187,6 +187,59 @@ def run_refine(unit, res, only=None):
     res["samples"].append({"refinement_space": {"d": d, "max_depth": max_depth, "max_refinements": R, "distinct_leaf_sets": len(states)}})
 
 
+def run_growth(unit, res):
+    """one design space grown to several hundred designs (every refinement checked exactly): bookkeeping that only
+    breaks at scale (buffer growth, index arithmetic) is out of reach of the short refinement sequences"""
+    _, d, order_kind, target = unit
+    core.import_vopy()
+    from vopy.design_space import AdaptivelyDiscretizedDesignSpace
+
+    m = 2
+    DEPTH = 12  # cells stay far above float resolution (2^-12); only leaves below this depth are refined
+    ds = AdaptivelyDiscretizedDesignSpace(d, m, delta=0.1, max_depth=DEPTH)
+    leaves = [0]
+    n_ref = 0
+
+    def bad(kind, want, got, msg):
+        return core.violation(PROPERTY, {"kind": kind, "d": d, "flavour": "growth"}, {"mode": "growth", "unit": list(unit)}, want, got,
+                              f"AdaptivelyDiscretizedDesignSpace(d={d}) grown {order_kind} to {len(ds.points)} designs (refinement #{n_ref}): {msg}")
+
+    while len(ds.points) < target:
+        cand = [k for k, l in enumerate(leaves) if ds.point_depths[l] < DEPTH]
+        if order_kind == "bfs":
+            parent = leaves.pop(cand[0])
+        elif order_kind == "dfs":
+            parent = leaves.pop(cand[-1])
+        else:  # zigzag: alternate oldest / youngest refinable leaf
+            parent = leaves.pop(cand[0] if n_ref % 2 == 0 else cand[-1])
+        preg = (np.array(ds.confidence_regions[parent].lower).copy(), np.array(ds.confidence_regions[parent].upper).copy())
+        ch = ds.refine_design(parent)
+        n_ref += 1
+        res["transitions"] += 1
+        res["evaluations"] += 1
+        v = check_children(ds, parent, ch, preg, d, bad)
+        if v is not None:
+            res["violations"].append(v)
+            return
+        leaves.extend(ch)
+        if n_ref % 16 == 0 or len(ds.points) >= target:
+            # every stored design (not only the new ones) still sits at the centre of its own cell
+            for i in range(len(ds.points)):
+                c = [(F(a) + F(b)) / 2 for a, b in ds.cells[i]]
+                if any(F(ds.points[i][k]) != c[k] for k in range(d)):
+                    res["violations"].append(bad("stored-point-not-cell-centre", [float(x) for x in c], np.asarray(ds.points[i]).tolist(),
+                                                 f"design {i} is stored at {np.asarray(ds.points[i]).tolist()} but its cell {ds.cells[i]} has centre {[float(x) for x in c]}"))
+                    return
+            if sum(cell_volume(ds.cells[l]) for l in leaves) != 1:
+                res["violations"].append(bad("leaves-do-not-tile", 1.0, "!=1", "leaves do not tile the unit cube"))
+                return
+    res["states"] += n_ref
+    res["nontrivial"] += n_ref
+    core.bump(res, "growth_refinements", n_ref)
+    res["outcomes"].append(f"growth:{d}:{order_kind}:{len(ds.points)}")
+    res["samples"].append({"growth": {"d": d, "order": order_kind, "designs": len(ds.points), "refinements": n_ref}})
+
+
 # ---------------------------------------------------------------------------------------------
 # VOGP_AD stepmc
 
@@ -502,10 +555,13 @@ def units(ctx):
                         us.append(("ad", d, depth_max, which, spec, eps, 40 if (ctx.thorough or d == 1) else 14))
     for d in (1, 2, 3):
         us.append(("adreal", d, 2, ctx.seed))
+    for d in (1, 2, 3):
+        for kind in ("bfs", "dfs", "zigzag"):
+            us.append(("growth", d, kind, 1200 if ctx.thorough else 400))
     return us
 
 
-FN = {"refine": run_refine, "ad": run_ad, "adreal": run_real}
+FN = {"refine": run_refine, "ad": run_ad, "adreal": run_real, "growth": run_growth}
 
 
 def run_unit(unit):
@@ -517,7 +573,9 @@ def run_unit(unit):
 def replay_case(case):
     res = core.new_result()
     u = list(case["unit"])
-    if case["mode"] == "refine":
+    if case["mode"] == "growth":
+        run_growth(tuple(u), res)
+    elif case["mode"] == "refine":
         run_refine(tuple(u), res, only=case["seq"])
     elif case["mode"] == "ad":
         u[4] = tuple(tuple(tuple(r) for r in x) if isinstance(x, list) else x for x in u[4])
